@@ -12,6 +12,7 @@ LEVEL_TEXT = ("Lean 4 theorems over the multiplier tables regenerated from unit_
 LEVEL_NOTE = ("Trusted: Lean kernel (propext/Classical.choice/Quot.sound), the ast translator tr_units (its output is also compared numerically with the "
               "real get_*_multipliers on every run), exact field arithmetic vs IEEE doubles (rel 1e-9). Positive population and daily needs assumed.")
 TECHNIQUE = "translator (source -> Lean tables) + Lean 4 algebraic proofs + differential correspondence of in_units"
+DRIVER = "driver_units"
 LEAN_MODULES = ["AllfedModel.Props.C10"]
 TRANSLATORS = [tr_units.run]
 OBLIGATIONS = ["Allfed.C10." + n for n in [
